@@ -1295,6 +1295,8 @@ class Evaluator(object):
     def merge_values(self, c, a, b):
         if a is b:
             return a
+        if c.op == "aff" and c.w == 1 and (c.aux[0] & 1):
+            return self.merge_values(T.bnot(c), b, a)  # canonical polarity
         if a is None:
             return b
         if b is None:
